@@ -55,7 +55,10 @@ EVAL = {
 # place): it is either refused (ValueError) or classified at the positions it holds now;
 # "own": the classifier's own testing part handed back as it is returned (already under the learning scaling);
 # "own_reverted": the same DataSet after revert_scaling() (raw again)
-OPS = [(k, n) for k in ("call", "test") for n in ("in", "part", "out", "unl", "single", "own", "own_reverted", "again")]
+# "prescaled_far": a DataSet the USER scaled with scale_range to the classifier's range before handing it over; its raw samples span a box
+# of exactly the learning data's extent but 8 units away, so range and factor equal those of the learning scaling although every sample is
+# far outside the learned range: it must be refused (or treated as entirely outside), never classified
+OPS = [(k, n) for k in ("call", "test") for n in ("in", "part", "out", "unl", "single", "own", "own_reverted", "again", "prescaled_far")]
 OBSERVED = []      # what the implementation returned in the current case (classes / summaries), for the outcome fingerprint
 
 
@@ -149,6 +152,20 @@ def _run_sequence_inner(c, seq):
             ds = prev_ds
             Xd, yd = np.array(ds.get_data()[0], dtype=float).copy(), np.array(ds.get_data()[1]).copy()
             sc, inr, scin, expc, tie = _expected(cl, lo, fac, Xd, yd, prescaled=True)
+        elif name == "prescaled_far":
+            lo_raw, hi_raw = np.array(cl.get_dataset_range()[0], dtype=float), np.array(cl.get_dataset_range()[1], dtype=float)
+            Xd = np.array([lo_raw + 8.0, hi_raw + 8.0, (lo_raw + hi_raw) / 2.0 + 8.0])
+            yd = np.array([0, 1, 1])
+            ds = DataSet((Xd.copy(), yd.copy()), name=name)
+            ds.scale_range((0.005, 0.995))
+            try:
+                out = cl(ds, print_removed=False) if kind == "call" else cl.test_data(ds, print_output=False, print_removed=False)
+                issues.append(("foreign_prescaled_data_classified", "step %d %s/%s: samples %r (raw, all far outside the learned range [%r,%r]) were scaled by the user "
+                               "to the classifier's range and are accepted and classified as if they were inside" % (si, kind, name, Xd.tolist(), lo_raw.tolist(), hi_raw.tolist())))
+            except ValueError:
+                pass
+            prev_ds = None
+            continue
         elif name.startswith("own"):
             ds = cl.get_testing_data()
             if ds.is_empty():
